@@ -255,7 +255,7 @@ theorem nextOn_none (c : Circ) (k q : Nat) :
       rw [h j hlt] at hc; simp at hc
 
 /-! ## `dedupPts` -/
-theorem mem_dedupPts (p : Nat × Nat) (l : List (Nat × Nat)) : p ∈ dedupPts l ↔ p ∈ l := by
+theorem mem_dedupPts_iff (p : Nat × Nat) (l : List (Nat × Nat)) : p ∈ dedupPts l ↔ p ∈ l := by
   induction l with
   | nil => simp [dedupPts]
   | cons a t ih =>
@@ -282,7 +282,7 @@ theorem nodup_dedupPts (l : List (Nat × Nat)) : (dedupPts l).Nodup := by
     · rename_i h
       have h' : a ∉ t := by simpa using h
       rw [List.nodup_cons]
-      exact ⟨fun hm => h' ((mem_dedupPts a t).1 hm), ih⟩
+      exact ⟨fun hm => h' ((mem_dedupPts_iff a t).1 hm), ih⟩
 
 theorem dedupPts_eq_nil (l : List (Nat × Nat)) : dedupPts l = [] ↔ l = [] := by
   constructor
@@ -290,18 +290,18 @@ theorem dedupPts_eq_nil (l : List (Nat × Nat)) : dedupPts l = [] ↔ l = [] := 
     cases l with
     | nil => rfl
     | cons a t =>
-      have : a ∈ dedupPts (a :: t) := (mem_dedupPts _ _).2 (by simp)
+      have : a ∈ dedupPts (a :: t) := (mem_dedupPts_iff _ _).2 (by simp)
       rw [h] at this; simp at this
   · rintro rfl; rfl
 
 /-! ## `next` / `prev` of an operation -/
 theorem mem_next (c : Circ) (k : Nat) (o : Op) (p : Nat × Nat) :
     p ∈ c.next k o ↔ ∃ q ∈ o.loc, c.nextOn k q = some p := by
-  simp [Circ.next, mem_dedupPts, List.mem_filterMap]
+  simp [Circ.next, mem_dedupPts_iff, List.mem_filterMap]
 
 theorem mem_prev (c : Circ) (k : Nat) (o : Op) (p : Nat × Nat) :
     p ∈ c.prev k o ↔ ∃ q ∈ o.loc, c.prevOn k q = some p := by
-  simp [Circ.prev, mem_dedupPts, List.mem_filterMap]
+  simp [Circ.prev, mem_dedupPts_iff, List.mem_filterMap]
 
 theorem next_nodup (c : Circ) (k : Nat) (o : Op) : (c.next k o).Nodup := nodup_dedupPts _
 theorem prev_nodup (c : Circ) (k : Nat) (o : Op) : (c.prev k o).Nodup := nodup_dedupPts _
@@ -351,7 +351,7 @@ theorem mem_iterCyc (c : Circ) (k : Nat) (o : Op) :
 /-- **front**: exactly the points of the operations without predecessor, each once -/
 theorem mem_front (c : Circ) (p : Nat × Nat) :
     p ∈ c.front ↔ ∃ k o, (k, o) ∈ c.iterCyc ∧ c.prev k o = [] ∧ p = (k, o.head) := by
-  simp only [Circ.front, mem_dedupPts, List.mem_filterMap, Prod.exists]
+  simp only [Circ.front, mem_dedupPts_iff, List.mem_filterMap, Prod.exists]
   constructor
   · rintro ⟨k, o, hm, h⟩
     split at h
@@ -364,7 +364,7 @@ theorem mem_front (c : Circ) (p : Nat × Nat) :
 /-- **rear**: exactly the points of the operations without successor, each once -/
 theorem mem_rear (c : Circ) (p : Nat × Nat) :
     p ∈ c.rear ↔ ∃ k o, (k, o) ∈ c.iterCyc ∧ c.next k o = [] ∧ p = (k, o.head) := by
-  simp only [Circ.rear, mem_dedupPts, List.mem_filterMap, Prod.exists]
+  simp only [Circ.rear, mem_dedupPts_iff, List.mem_filterMap, Prod.exists]
   constructor
   · rintro ⟨k, o, hm, h⟩
     split at h
